@@ -115,7 +115,7 @@ func (o *output) Gen(r *rand.Rand, tier string, emit func(string)) {
 		var stream []byte
 		nl := 1 + r.Intn(6)
 		for i := 0; i < nl; i++ {
-			ll := []int{0, 1, 3, 20, 200, 5000}[r.Intn(6)]
+			ll := []int{0, 1, 3, 20, 200, 700}[r.Intn(6)]
 			if k%50 == 0 && i == 0 {
 				ll = 9000 // longer than bufio's buffer
 			}
